@@ -52,6 +52,30 @@ fn c17(r: &mut Rng, thorough: bool, w: W) -> std::io::Result<()> {
         for k in 0..64u32 {
             fixed.push(1u64 << k);
             fixed.push((1u64 << k).wrapping_sub(1));
+            fixed.push((1u64 << k) + 1);
+            // a power of two of whole seconds, and one sub-second unit to either side
+            if let Some(x) = (1u64 << k).checked_mul(unit) {
+                fixed.extend([x, x - 1, x + 1, x + unit - 1]);
+            }
+            // 2^k microseconds / milliseconds expressed in the other unit's boundaries
+            fixed.push((1u64 << k) / unit * unit);
+            fixed.push(((1u64 << k) / unit * unit).wrapping_sub(1));
+        }
+        // decimal boundaries: d * 10^j and its neighbours
+        let mut p10 = 1u64;
+        for _ in 0..19 {
+            for d in 1..=9u64 {
+                if let Some(x) = p10.checked_mul(d) {
+                    fixed.extend([x - 1, x, x + 1]);
+                }
+            }
+            p10 *= 10;
+        }
+        // the 32-bit limits of either field, as seconds and as sub-second parts
+        for s in [u32::MAX as u64, u32::MAX as u64 - 1, i32::MAX as u64, i32::MAX as u64 + 1, 65535, 65536] {
+            if let Some(x) = s.checked_mul(unit) {
+                fixed.extend([x, x + 1, x + unit - 1, x + unit / 2]);
+            }
         }
         for v in fixed {
             writeln!(w, "{} {}", op, v)?;
@@ -391,6 +415,13 @@ fn c01(r: &mut Rng, thorough: bool, w: W) -> std::io::Result<()> {
         let sfx = suffix(r);
         writeln!(w, "RT {} {}", p_message(&m), hex(&sfx))?;
     }
+    // the one-byte argument count at its limit
+    for count in [254usize, 255] {
+        for nw in [false, true] {
+            let m = crate::gen::message_with_count(r, nw, count);
+            writeln!(w, "RT {} {}", p_message(&m), hex(&suffix(r)))?;
+        }
+    }
     Ok(())
 }
 
@@ -403,6 +434,14 @@ fn c02(r: &mut Rng, thorough: bool, w: W) -> std::io::Result<()> {
         let big = i < nbig;
         let m = message(r, &MsgOpts { storage: None, big, max_args: if big { 12 } else { 6 } });
         writeln!(w, "ENC {}", p_message(&m))?;
+    }
+    for count in [254usize, 255] {
+        for nw in [false, true] {
+            let m = crate::gen::message_with_count(r, nw, count);
+            writeln!(w, "ENC {}", p_message(&m))?;
+            let ws = m.storage_header.is_some();
+            writeln!(w, "PARSE {} - {}", p_bool(ws), hex(&enc(&m)))?;
+        }
     }
     // decoding: canonical, dialect, mutated, truncated, spliced, arbitrary; both storage modes
     let n = if thorough { 1_000_000 } else { 10_000 };
@@ -706,6 +745,10 @@ fn c05(r: &mut Rng, thorough: bool, w: W) -> std::io::Result<()> {
 fn message_config(r: &mut Rng) -> (MessageConfig, Option<StorageHeader>) {
     let big = r.chance(1, 50);
     let m = message(r, &MsgOpts { storage: None, big, max_args: 6 });
+    config_of(m)
+}
+
+fn config_of(m: Message) -> (MessageConfig, Option<StorageHeader>) {
     let ext = m.extended_header.as_ref().map(|e| ExtendedHeaderConfig {
         message_type: e.message_type.clone(),
         app_id: e.application_id.clone(),
@@ -728,6 +771,12 @@ fn message_config(r: &mut Rng) -> (MessageConfig, Option<StorageHeader>) {
 
 fn c15(r: &mut Rng, thorough: bool, w: W) -> std::io::Result<()> {
     let n = if thorough { 300_000 } else { 6_000 };
+    for count in [254usize, 255] {
+        for nw in [false, true] {
+            let (c, sh) = config_of(crate::gen::message_with_count(r, nw, count));
+            writeln!(w, "NEW {} {}", crate::ops::p_message_config(&c), p_opt(&sh, p_storage_header))?;
+        }
+    }
     for i in 0..n {
         match i % 4 {
             0 | 1 => {
@@ -805,6 +854,12 @@ fn c15(r: &mut Rng, thorough: bool, w: W) -> std::io::Result<()> {
 
 fn c16(r: &mut Rng, thorough: bool, w: W) -> std::io::Result<()> {
     let n = if thorough { 600_000 } else { 12_000 };
+    for count in [254usize, 255] {
+        for nw in [false, true] {
+            let m = crate::gen::message_with_count(r, nw, count);
+            writeln!(w, "STABLE {} {}", p_bool(m.storage_header.is_some()), hex(&enc(&m)))?;
+        }
+    }
     for i in 0..n {
         let (ws, v) = decode_stream(r, i % 500 == 0);
         writeln!(w, "STABLE {} {}", p_bool(ws), hex(&v))?;
